@@ -124,3 +124,40 @@ Example C07_comparison_nonvacuous :
   (forall c a, In c cells -> In a (active_axes ROps exR) -> nb_homog cells exz c (cdn a c) /\ nb_homog cells exz c (cup a c)) /\
   Rabs (exz (1, 0, 0)%nat) <= 5.
 Proof. exact comparison_hyps_satisfiable. Qed.
+
+(* ---- the bounds for solutions of the assembled system, hypotheses on the DATA only (Theory/ClosureThy.v): the ghost hypothesis is
+   derived from the boundary rows of arbitrary non-periodic boundary objects (Dirichlet, Neumann, Robin of one sign); the boundary
+   data must not push beyond the bound: (c - b*M) * d <= 0 with d = b/2 +- a/h the ghost coefficient (Dirichlet: c/b <= M;
+   homogeneous Neumann: always) ---- *)
+From PFV Require Import ComparisonThy ClosureThy.
+Theorem C07_solution_upper_bound : forall (m : Mesh ROps) (bc : BCs ROps) (D u : fvar ROps),
+  interior_cells ROps m <> [] ->
+  (forall c a, In c (interior_cells ROps m) -> In a (active_axes ROps m) -> (1 <= cidx a c <= mN ROps m a)%nat /\ signs_ok m D c a) ->
+  (forall c, In c (interior_cells ROps m) -> rsuml (fun a => divrow ROps m u a c) (active_axes ROps m) = 0) ->
+  bc_sign_ok m bc ->
+  forall (alpha beta s old x : cvar ROps) (dt M : R),
+  0 < dt -> (forall c, In c (interior_cells ROps m) -> 0 < alpha c /\ 0 <= beta c) ->
+  is_solution ROps m bc (tlist D u alpha beta s old dt) x ->
+  (forall c, In c (interior_cells ROps m) -> old c <= M /\ s c <= beta c * M) -> data_below m bc M ->
+  forall c, In c (interior_cells ROps m) -> x c <= M.
+Proof. exact solution_upper_bound. Qed.
+Theorem C07_solution_lower_bound : forall (m : Mesh ROps) (bc : BCs ROps) (D u : fvar ROps),
+  interior_cells ROps m <> [] ->
+  (forall c a, In c (interior_cells ROps m) -> In a (active_axes ROps m) -> (1 <= cidx a c <= mN ROps m a)%nat /\ signs_ok m D c a) ->
+  (forall c, In c (interior_cells ROps m) -> rsuml (fun a => divrow ROps m u a c) (active_axes ROps m) = 0) ->
+  bc_sign_ok m bc ->
+  forall (alpha beta s old x : cvar ROps) (dt lo : R),
+  0 < dt -> (forall c, In c (interior_cells ROps m) -> 0 < alpha c /\ 0 <= beta c) ->
+  is_solution ROps m bc (tlist D u alpha beta s old dt) x ->
+  (forall c, In c (interior_cells ROps m) -> lo <= old c /\ beta c * lo <= s c) -> data_above m bc lo ->
+  forall c, In c (interior_cells ROps m) -> lo <= x c.
+Proof. exact solution_lower_bound. Qed.
+Print Assumptions C07_solution_upper_bound.
+Print Assumptions C07_solution_lower_bound.
+(* non-vacuity: a concrete solution of the assembled system (one-cell mesh, Dirichlet data, one backward-Euler step of diffusion)
+   satisfies every hypothesis of the two theorems, which then give 0 <= 1/5 <= 1 *)
+Example C07_is_solution_example :
+  is_solution ROps exR exbc (tlist exD exu (fun _ => 1) (fun _ => 0) (fun _ => 0) (fun _ => 1) 1) exx.
+Proof. exact is_solution_example. Qed.
+Example C07_bounds_apply : 0 <= exx (1, 0, 0)%nat <= 1.
+Proof. exact bounds_apply. Qed.
